@@ -67,7 +67,10 @@ def run_sequence(seq, ctx=None):
     """
     import numpoly
 
-    defaults = numpoly.get_options(defaults=True)
+    from .. import hooks
+    # the shipped defaults as recorded (by value) when the worker started: an independent snapshot,
+    # so that a get_options(defaults=True) that hands out the live defaults dict is noticed
+    defaults = dict(hooks._DEFAULTS) or dict(numpoly.get_options(defaults=True))
     initial = numpoly.get_options()
     current = dict(initial)
     stack = []   # (saved options, cm, yielded)
@@ -235,7 +238,20 @@ def kwargs_st(bad=False):
                      VALUE).map(lambda t: dict(list(t[0].items()) + [(t[1], t[2])]))
 
 
+def full_kwargs_st(bad=False):
+    """A complete option dict written back (the 'read, tweak, apply' idiom), optionally with a misspelt key."""
+    base = st.fixed_dictionaries({k: VALUE for k in OPTION_NAMES})
+    if not bad:
+        return base
+    return st.tuples(base, st.sampled_from(["no_such_option", "sort_grade", "Retain_names"]), VALUE).map(
+        lambda t: dict(list(t[0].items()) + [(t[1], t[2])]))
+
+
 ACTION = st.one_of(
+    st.tuples(st.just("set"), full_kwargs_st()),
+    st.tuples(st.just("set_bad"), full_kwargs_st(True)),
+    st.tuples(st.just("enter_bad"), full_kwargs_st(True)),
+    st.tuples(st.just("enter"), full_kwargs_st()),
     st.tuples(st.just("enter"), kwargs_st()),
     st.tuples(st.just("enter"), kwargs_st()),
     st.tuples(st.just("enter_bad"), kwargs_st(True)),
@@ -312,7 +328,7 @@ def run_extra(worker):
         def __init__(self):
             super().__init__()
             hooks.reset_case(numpoly)
-            self.defaults = numpoly.get_options(defaults=True)
+            self.defaults = dict(hooks._DEFAULTS)
             self.current = dict(numpoly.get_options())
             self.stack = []
             self.log = []
@@ -333,7 +349,7 @@ def run_extra(worker):
             self.current.update(kw)
             self.maxdepth = max(self.maxdepth, len(self.stack))
 
-        @rule(kw=kwargs_st(True))
+        @rule(kw=st.one_of(kwargs_st(True), full_kwargs_st(True)))
         def enter_bad(self, kw):
             self._record("enter_bad", kw)
             try:
@@ -372,7 +388,7 @@ def run_extra(worker):
             if self.stack:
                 self.special = True
 
-        @rule(kw=kwargs_st(True))
+        @rule(kw=st.one_of(kwargs_st(True), full_kwargs_st(True)))
         def set_bad(self, kw):
             self._record("set_bad", kw)
             try:
